@@ -1092,3 +1092,75 @@ def check_parser_positions(ctx, rep, RULE):
            how="the same for every bond symbol of SMILES_BOND_ORDERS, not larger without a symbol", nontrivial=True, key="uniform-bond-symbols",
            witness=None if ok else "bond symbol(s) %s are counted differently from the others when positions are assigned: every atom after such "
                                    "a bond is attributed to the wrong token position" % (odd or sorted(symbols)))
+
+
+def check_encoder_fragment_offsets(ctx, rep, RULE):
+    """TE5: the symbol offset the encoder hands to the fragment printer for each '.'-fragment is the number of symbols all
+    earlier fragments produced (ghost counter over the fragment loop, like TI3 / TO2 on the decoder side)."""
+    from rules.shared import core_of
+    encf = core_of(ctx, "encoder", "smiles_to_mol")
+    F = None
+    for s in ctx.cg.sites(encf):
+        for g in s.callees:
+            if g.module is encf.module and any(isinstance(n, ast.While) for n in own_nodes(g.node)):
+                F = g
+    if F is None:
+        raise AnalysisError("fragment printer of the encoder not found")
+    # the offset parameter: the parameter of F that enters the index of the AttributionMap entries it builds
+    offs = set()
+    for n in own_nodes(F.node):
+        if isinstance(n, ast.Call) and unparse(n.func).split(".")[-1] == "AttributionMap" and (n.args or n.keywords):
+            idx = n.args[0] if n.args else next((k.value for k in n.keywords if k.arg == "index"), None)
+            if idx is not None:
+                offs |= {x.id for x in ast.walk(idx) if isinstance(x, ast.Name) and x.id in F.params}
+    for g in ctx.db.funcs.values():          # ... or of a closure of F that builds them
+        if getattr(g, "outer", None) is F:
+            for n in own_nodes(g.node):
+                if isinstance(n, ast.Call) and unparse(n.func).split(".")[-1] == "AttributionMap" and n.args:
+                    offs |= {x.id for x in ast.walk(n.args[0]) if isinstance(x, ast.Name) and x.id in F.params}
+    if len(offs) != 1:
+        rep.note("offset parameter of the encoder's fragment printer not identified: fragment offsets of the encoder not decided")
+        rep.ob(RULE, True, F.node, F, construct="fragment offsets of the encoder", how="not decided for this shape (see note)", key="enc-frag-offset/undecided")
+        return
+    offp = next(iter(offs))
+    GS = "$encsyms"
+    seen, lens = [], {}
+
+    class H(Hooks):
+        def on_call(self, eng, fr, node, callee, args, kwargs, st):
+            if callee is F and fr.func is encf:
+                bound = eng.bind_args(callee, args, kwargs) or {}
+                seen.append((node, bound.get(offp), st))
+                n = next(eng.counter)
+                r = Lin.var(("fragsyms", n))
+                v = Unk(("fraglist", n))
+                lens[vkey(v)] = r
+                s2 = st.copy()
+                s2.epoch += 1
+                s2.add_lin(ge(r, 0))
+                s2.env[GS] = Num(s2.env[GS].lin + r)
+                for a in (list(node.args) + [k.value for k in node.keywords]) if isinstance(node, ast.Call) else []:
+                    if isinstance(a, ast.Name) and isinstance(s2.env.get(a.id), Tup):
+                        s2.env[a.id] = Unk(eng.fresh("filled:" + a.id))
+                return [(s2, v)]
+            if isinstance(callee, tuple) and callee[0] == "ext" and callee[1] in ("builtins.list", "builtins.tuple") and len(args) == 1 \
+                    and vkey(args[0]) in lens and fr.func is encf:
+                return [(st, args[0])]
+            if isinstance(callee, tuple) and callee[0] == "ext" and callee[1] == "builtins.len" and len(args) == 1 and vkey(args[0]) in lens:
+                return [(st, Num(lens[vkey(args[0])]))]
+            return None
+    hh = H()
+    backs = []
+    hh.on_loop = lambda eng, fr, node, syms, entered, back, exits, breaks: backs.append(len(back)) if fr.func is encf else None
+    st0 = State()
+    st0.env[GS] = Num(Lin.const(0))
+    Engine(ctx, hh).run_function(encf, {}, state=st0)
+    if not seen:
+        raise AnalysisError("encoder: call of the fragment printer not reached")
+    if not backs or not any(backs):
+        raise AnalysisError("encoder: no path of the abstract run completes an iteration of the fragment loop (model lost)")
+    bad = [node for node, off, s in seen if not (isinstance(off, Num) and s.entails(eq(off.lin - s.env[GS].lin, 0)))]
+    rep.ob(RULE, not bad, bad[0] if bad else seen[0][0], encf, construct="symbol offset passed to %s for each fragment" % F.name,
+           how="number of symbols produced for the earlier fragments (ghost counter + loop invariant)",
+           witness=None if not bad else "the offset of a later fragment is not the total number of symbols of the earlier ones: the reported "
+           "positions of its symbols point at other symbols", nontrivial=True, key="enc-frag-offset")
